@@ -196,6 +196,29 @@ impl Driver {
                     Err(_) => "ERR".into(),
                 }
             }
+            "LIB" => {
+                let content = unhex(it.next().unwrap());
+                let thr = f32::from_bits(it.next().unwrap().parse::<u32>().unwrap());
+                let settings = charset_normalizer_rs::entity::NormalizerSettings { threshold: ordered_float::OrderedFloat(thr), ..Default::default() };
+                match charset_normalizer_rs::from_bytes(&content, Some(settings)) {
+                    Err(e) => format!("ERR {}", hex(e.as_bytes())),
+                    Ok(ms) => {
+                        fn line(m: &charset_normalizer_rs::entity::CharsetMatch, out: &mut Vec<String>) {
+                            out.push(format!("I {} {} {} {} {} {} {}", hex(m.encoding().as_bytes()), fbits(m.chaos()), if m.bom() { 1 } else { 0 },
+                                crate::sig::coh_str(&hooks::coherence_matches(m)), hex(m.raw()),
+                                match m.decoded_payload() { None => "NONE".to_string(), Some(t) => hex(t.as_bytes()) }, m.submatch().len()));
+                            for s in m.submatch() {
+                                line(s, out);
+                            }
+                        }
+                        let mut out = vec![format!("OK {}", ms.len())];
+                        for m in ms.iter() {
+                            line(m, &mut out);
+                        }
+                        out.join("\n")
+                    }
+                }
+            }
             "DECL" => {
                 let b = unhex(it.next().unwrap());
                 match hooks::any_specified_encoding(&b, 4096) {
@@ -292,6 +315,22 @@ impl Driver {
         self.send(cmd);
         let _ = self.stdin.flush();
         self.collect(true).pop().unwrap_or_default()
+    }
+
+    /// the CLI model: flags, the files of the scratch directory, the input paths; returns the model's lines
+    pub fn cli_model(&mut self, flags: &str, files: &[(String, Option<Vec<u8>>)], inputs: &[String]) -> Vec<String> {
+        self.send(&format!("CLI {} {} {}", flags, files.len(), inputs.len()));
+        for (p, c) in files {
+            match c {
+                Some(b) => self.send(&format!("P {} R {}", hex(p.as_bytes()), hex(b))),
+                None => self.send(&format!("P {} D -", hex(p.as_bytes()))),
+            }
+        }
+        for p in inputs {
+            self.send(&format!("F {}", hex(p.as_bytes())));
+        }
+        let _ = self.stdin.flush();
+        self.collect(false)
     }
 
     pub fn declared(&mut self, b: &[u8]) -> Option<String> {
